@@ -1571,3 +1571,987 @@ func ruleX10(c *an.Ctx) {
 		c.Info("X10", "anchor(null arm of SplitExp.BindingPath)", 0, "not found: not decided")
 	}
 }
+
+// ---------------------------------------------------------------------------
+// Round 10
+// ---------------------------------------------------------------------------
+
+// F17 (C06): a deferred function that ends the process is the first one registered.  Deferred calls
+// run last-in first-out.  The Go stage adapter reports a panicking stage through a deferred
+// recover that writes the stack to the error pipe, and ends the process with os.Exit(0) (the exit
+// status says nothing; mrjob looks at the pipe).  If the exiting call is deferred AFTER the
+// recovering one, it runs first: the process exits 0 with an empty pipe and the crashed job is
+// recorded as complete.
+// Rule: in the adapter and mrjob, no defer whose callee can call os.Exit is registered after
+// (dominated by) another defer of the same function.
+func ruleF17(c *an.Ctx) {
+	exits := func(in ssa.Instruction) bool { return staticCalleeIs(in, "os", "Exit") != nil }
+	n := 0
+	for _, pk := range []string{"martian/adapter", "cmd/mrjob"} {
+		for _, fn := range c.P.FuncsOf(pk) {
+			var defers []*ssa.Defer
+			an.Instrs(fn, func(in ssa.Instruction) {
+				if d, ok := in.(*ssa.Defer); ok {
+					defers = append(defers, d)
+				}
+			})
+			for _, d2 := range defers {
+				var callee *ssa.Function
+				switch v := d2.Call.Value.(type) {
+				case *ssa.Function:
+					callee = v
+				case *ssa.MakeClosure:
+					callee, _ = v.Fn.(*ssa.Function)
+				}
+				if callee == nil || !an.MayDo(callee, exits, 2) {
+					continue
+				}
+				n++
+				bad := token.NoPos
+				for _, d1 := range defers {
+					if d1 == d2 {
+						continue
+					}
+					// d1 registered earlier: its block dominates d2's, or same block and earlier
+					earlier := false
+					if d1.Block() == d2.Block() {
+						for _, in := range d1.Block().Instrs {
+							if in == ssa.Instruction(d1) {
+								earlier = true
+								break
+							}
+							if in == ssa.Instruction(d2) {
+								break
+							}
+						}
+					} else if d1.Block().Dominates(d2.Block()) {
+						earlier = true
+					}
+					if earlier {
+						bad = d1.Pos()
+					}
+				}
+				c.Check("F17", "exiting-defer-registered-first@"+an.FnName(fn), d2.Pos(), bad == token.NoPos,
+					"this deferred call ends the process (os.Exit) and is registered after another deferred call of the same function: deferred calls run last-in first-out, so the earlier one - the recover that reports a panicking stage on the error pipe - never runs and a crashed job exits 0 with an empty pipe, i.e. is recorded as complete")
+			}
+		}
+	}
+	if n == 0 {
+		c.Info("F17", "anchor(deferred calls that exit)", 0, "none in the adapter or mrjob: not decided")
+	}
+}
+
+// D1c (C10): compile drivers do not pick the first error to ARRIVE.  `mrc --all` compiles every
+// top-level file and reports the first failure.  Compiling the files in goroutines and keeping
+// whichever error is delivered first makes the reported error depend on scheduling.
+// Rule: no goroutine is started in the command packages that drive compilation (cmd/mro/check).
+func ruleD1c(c *an.Ctx) {
+	n := 0
+	for _, pk := range []string{"cmd/mro/check", "cmd/mro/format", "cmd/mro/graph"} {
+		for _, fn := range c.P.FuncsOf(pk) {
+			for _, g := range an.WithAnon(fn) {
+				an.Instrs(g, func(in ssa.Instruction) {
+					if _, ok := in.(*ssa.Go); ok {
+						n++
+						c.Fail("D1b", "goroutine@"+an.FnName(fn), in.Pos(), "a goroutine is started by a compile driver: which file's error (or output) comes first then depends on scheduling, not on the sources")
+					}
+				})
+			}
+		}
+	}
+	if n == 0 {
+		c.Pass("D1b", "no-goroutine-in-compile-drivers", 0, "scanned cmd/mro/check, cmd/mro/format, cmd/mro/graph")
+	}
+}
+
+// R13 (C05): re-creating a fork's directories includes its chunks'.  After a re-attach the chunks
+// are rebuilt from the split's durable _stage_defs in updateId, and the restart branch of doChunks
+// does not create directories; Fork.mkdirs is what does.  Without it a restart at the point "split
+// complete, chunk directories not yet made" can never write _jobinfo and every restart dies.
+// Rule: Fork.mkdirs calls Chunk.mkdirs inside a loop over the fork's chunks.
+func ruleR13(c *an.Ctx) {
+	fn := c.P.Func(pkgCore, "(*Fork).mkdirs")
+	cm := c.P.Func(pkgCore, "(*Chunk).mkdirs")
+	chunksF := c.P.Field(pkgCore, "Fork", "chunks")
+	if fn == nil || cm == nil || chunksF == nil {
+		c.Info("R13", "anchor(Fork.mkdirs/Chunk.mkdirs)", 0, "not found: not decided")
+		return
+	}
+	ok := false
+	for _, body := range naturalLoops(fn) {
+		over, calls := false, false
+		for b := range body {
+			for _, in := range b.Instrs {
+				if ia, isIA := in.(*ssa.IndexAddr); isIA && an.LoadsField(ia.X, chunksF) {
+					over = true
+				}
+				if cl := an.AsCallAny(in); cl != nil && cl.Common().StaticCallee() == cm {
+					calls = true
+				}
+			}
+		}
+		if over && calls {
+			ok = true
+		}
+	}
+	c.Check("R13", "chunk-directories-recreated@(*Fork).mkdirs", fn.Pos(), ok,
+		"Fork.mkdirs does not create the directories of the fork's known chunks: after a restart at the point where the split has completed but the chunk directories were not yet made, the chunks rebuilt from _stage_defs have no directory, runJob cannot write _jobinfo and mrp aborts - on every restart")
+}
+
+// R14 (C05): a pipestance directory is created inside a critical section.
+func ruleR14(c *an.Ctx) {
+	fn := c.P.Func(pkgCore, "(*Runtime).InvokePipeline")
+	inst := c.P.Func(pkgCore, "(*Runtime).instantiatePipeline")
+	if fn == nil || inst == nil {
+		c.Info("R14", "anchor(InvokePipeline)", 0, "not found: not decided")
+		return
+	}
+	n := 0
+	for _, cs := range callsTo(fn, inst) {
+		n++
+		w := an.Query{Fn: fn, Target: func(x ssa.Instruction) bool { return x == cs.(ssa.Instruction) },
+			Barrier: func(x ssa.Instruction) bool { return staticCalleeIs(x, "", "EnterCriticalSection") != nil }}.Find()
+		c.Check("R14", "pipestance-created-in-a-critical-section@(*Runtime).InvokePipeline", cs.Pos(), w == nil,
+			"InvokePipeline creates the lock and the directories and only then writes _invocation; a handled signal in between removes the lock and leaves a directory that can neither be invoked ('already exists') nor re-attached ('is not a pipestance directory'): the creation must run inside a critical section")
+	}
+	if n == 0 {
+		c.Info("R14", "anchor(call of instantiatePipeline)", 0, "not found: not decided")
+	}
+}
+
+// K11 (C12): a max-jobs slot is released when the job's state actually left running/queued.
+// updateState applies a journal entry with Metadata.cache, which ignores entries whose uniquifier is
+// stale (a late `.complete` of an attempt that was given up on and retried).  Releasing the slot
+// because of the NAME of the journaled file instead of the resulting state frees the slot of the live
+// retry; the next waiting job is submitted and more than --maxjobs jobs are on the cluster.
+// Rule: every call of JobManager.endJob in the updateState functions is dominated by a comparison of
+// a Metadata.getState result with the running/queued states.
+func ruleK11(c *an.Ctx) {
+	n := 0
+	perFn := map[*ssa.Function]int{}
+	for _, name := range []string{"(*Chunk).updateState", "(*Fork).updateState"} {
+		fn := c.P.Func(pkgCore, name)
+		if fn == nil {
+			c.Info("K11", "anchor("+name+")", 0, "not found: not decided")
+			continue
+		}
+		an.Instrs(fn, func(in ssa.Instruction) {
+			cl := an.AsCallAny(in)
+			if cl == nil {
+				return
+			}
+			nm := ""
+			if cl.Common().IsInvoke() {
+				nm = cl.Common().Method.Name()
+			} else if h := cl.Common().StaticCallee(); h != nil {
+				nm = h.Name()
+			}
+			if nm != "endJob" {
+				return
+			}
+			n++
+			perFn[fn]++
+			isState := func(v ssa.Value) bool {
+				ex, ok := v.(*ssa.Extract)
+				if !ok {
+					return false
+				}
+				call, ok := ex.Tuple.(*ssa.Call)
+				if !ok || call.Call.StaticCallee() == nil {
+					return false
+				}
+				return strings.HasSuffix(call.Call.StaticCallee().Name(), "etState") || strings.HasSuffix(call.Call.StaticCallee().Name(), "etStateNoLock")
+			}
+			g, _ := an.GuardedBy(in, func(rel an.Rel) bool {
+				return rel.Op == token.NEQ && (isState(rel.X) || isState(rel.Y))
+			})
+			c.Check("K11", fmt.Sprintf("slot-released-on-a-state-change@%s#%d", an.FnName(fn), perFn[fn]), in.Pos(), g,
+				"the max-jobs slot is released without looking at the state the journal entry left the metadata in: a stale entry of an attempt that was already retried (ignored by Metadata.cache) frees the slot of the live attempt, and the next job is submitted beyond --maxjobs")
+		})
+	}
+	if n == 0 {
+		c.Info("K11", "anchor(endJob calls in updateState)", 0, "none: not decided")
+	}
+}
+
+// W11 (C14): the cumulative kill report is read under the lock it is written under.
+// partialVdrKill loads _vdrkill.partial, extends it and writes it back while holding
+// Fork.storageLock.  Reading it (or the final report) before taking the lock lets a caller that had
+// to wait work from a stale copy and write it back over the other caller's: the files are removed,
+// but count, size and paths of the report no longer say so.
+// Rule: in partialVdrKill every call of getPartialKillReport / getVdrKillReport is preceded on every
+// path by storageLock.Lock().
+func ruleW11(c *an.Ctx) {
+	fn := c.P.Func(pkgCore, "(*Fork).partialVdrKill")
+	lockF := c.P.Field(pkgCore, "Fork", "storageLock")
+	if fn == nil || lockF == nil {
+		c.Info("W11", "anchor(partialVdrKill/storageLock)", 0, "not found: not decided")
+		return
+	}
+	locked := func(in ssa.Instruction) bool {
+		cl := an.AsCallAny(in)
+		if cl == nil || cl.Common().StaticCallee() == nil || cl.Common().StaticCallee().Name() != "Lock" || len(cl.Common().Args) == 0 {
+			return false
+		}
+		_, f := an.FieldOfAddr(cl.Common().Args[0])
+		return f == lockF
+	}
+	n := 0
+	an.Instrs(fn, func(in ssa.Instruction) {
+		cl := an.AsCallAny(in)
+		if cl == nil || cl.Common().StaticCallee() == nil {
+			return
+		}
+		nm := cl.Common().StaticCallee().Name()
+		if nm != "getPartialKillReport" && nm != "getVdrKillReport" {
+			return
+		}
+		n++
+		w := an.Query{Fn: fn, Target: func(x ssa.Instruction) bool { return x == in }, Barrier: locked}.Find()
+		c.Check("W11", fmt.Sprintf("report-read-under-the-storage-lock(%s)@(*Fork).partialVdrKill#%d", nm, n), in.Pos(), w == nil,
+			"the cumulative report is read before storageLock is taken: a caller that waits for the lock then extends and writes back a stale copy, overwriting what the other caller recorded - the files are removed but the report's count, size and paths no longer match")
+	})
+	c.Floor("W11", "reads of the kill reports in partialVdrKill", n, 2)
+}
+
+// X11 (C03): the number of forks of a run-time collection is the length of the decoded value.
+// getUnknownLength tells the fork expansion how many forks a map call over an upstream stage's
+// array needs.  It decodes the JSON and takes len().  A hand-written scanner that counts
+// separators (to avoid the allocation) has to re-implement JSON string escapes; one that gets
+// `"...\\"` wrong counts too few elements, the remaining elements get no fork, their jobs never run
+// and the pipestance still completes.
+// Rule: every integer returned by getUnknownLength (and the helpers of its package it returns the
+// result of) is a constant, the builtin len of a value, or reflect.Value.Len() - never arithmetic.
+func ruleX11(c *an.Ctx) {
+	fn := c.P.Func(pkgCore, "getUnknownLength")
+	if fn == nil {
+		c.Info("X11", "anchor(getUnknownLength)", 0, "not found: not decided")
+		return
+	}
+	var ok func(v ssa.Value, d int) string
+	ok = func(v ssa.Value, d int) string {
+		if v == nil || d > 6 {
+			return "derivation too deep"
+		}
+		switch x := v.(type) {
+		case *ssa.Const:
+			return ""
+		case *ssa.Phi:
+			for _, e := range x.Edges {
+				if e == ssa.Value(x) {
+					continue
+				}
+				if r := ok(e, d+1); r != "" {
+					return r
+				}
+			}
+			return ""
+		case *ssa.Extract:
+			return ok(x.Tuple, d+1)
+		case *ssa.Call:
+			if b, isB := x.Call.Value.(*ssa.Builtin); isB && (b.Name() == "len" || b.Name() == "cap") {
+				return ""
+			}
+			h := x.Call.StaticCallee()
+			if h == nil {
+				return "result of a dynamic call"
+			}
+			if h.Pkg != nil && h.Pkg.Pkg.Path() == "reflect" && h.Name() == "Len" {
+				return ""
+			}
+			if h.Blocks != nil && h.Pkg == fn.Pkg {
+				res := ""
+				an.Instrs(h, func(in ssa.Instruction) {
+					if r, isR := in.(*ssa.Return); isR && len(r.Results) > 0 && res == "" {
+						res = ok(r.Results[0], d+2)
+					}
+				})
+				if res != "" {
+					return res + " (in " + an.FnName(h) + ")"
+				}
+				return ""
+			}
+			return "result of " + an.FnName(h)
+		case *ssa.BinOp:
+			return "a count computed with arithmetic (" + x.Op.String() + ")"
+		}
+		return "a value of unknown origin"
+	}
+	n := 0
+	an.Instrs(fn, func(in ssa.Instruction) {
+		r, isR := in.(*ssa.Return)
+		if !isR || len(r.Results) == 0 {
+			return
+		}
+		n++
+		why := ok(r.Results[0], 0)
+		c.Check("X11", fmt.Sprintf("fork-count-is-the-decoded-length@getUnknownLength#%d", n), r.Pos(), why == "",
+			"the number of elements of a run-time collection is not taken from the decoded value: "+why+"; a byte scanner has to re-implement JSON strings (an element ending in an escaped backslash closes the string one character early), counts too few elements, and the remaining elements get no fork - their jobs never run")
+	})
+	if n == 0 {
+		c.Info("X11", "anchor(returns of getUnknownLength)", 0, "none: not decided")
+	}
+}
+
+// I15 (C16): the text of a string expression reaches JSON only through the quoting function.
+// StringExp.MarshalJSON / EncodeJSON write the value with quoteString, which escapes quotes,
+// backslashes and control characters.  A fast path that copies a "trivial" value between quotes
+// must know every character JSON requires to be escaped; one that only looks for `\` and `"` emits
+// raw tabs and newlines - invalid JSON for a top-level string argument of the invocation data.
+// Rule: in the methods of *StringExp in the syntax package, every use of the Value field is an
+// argument of quoteString, of len, or a comparison.
+func ruleI15(c *an.Ctx) {
+	valF := c.P.Field(pkgSyntax, "StringExp", "Value")
+	if valF == nil {
+		c.Info("I15", "anchor(StringExp.Value)", 0, "not found: not decided")
+		return
+	}
+	n := 0
+	for _, fn := range c.P.FuncsOf(pkgSyntax) {
+		if fn.Signature.Recv() == nil || !strings.Contains(fn.Signature.Recv().Type().String(), "StringExp") {
+			continue
+		}
+		if fn.Name() != "MarshalJSON" && fn.Name() != "EncodeJSON" && fn.Name() != "encodeJSON" {
+			continue
+		}
+		an.Instrs(fn, func(in ssa.Instruction) {
+			u, ok := in.(*ssa.UnOp)
+			if !ok || u.Op != token.MUL {
+				return
+			}
+			if _, f := an.FieldOfAddr(u.X); f != valF {
+				return
+			}
+			for _, r := range an.Referrers(u) {
+				n++
+				bad := ""
+				switch x := r.(type) {
+				case *ssa.BinOp, *ssa.DebugRef:
+				case *ssa.Call:
+					if b, isB := x.Call.Value.(*ssa.Builtin); isB {
+						if b.Name() != "len" {
+							bad = "handed to the builtin " + b.Name()
+						}
+					} else if h := x.Call.StaticCallee(); h == nil || (h.Name() != "quoteString" && h.Name() != "Grow") {
+						// any other function: a search (strings.ContainsAny) is harmless by itself; the
+						// copy that follows is what is reported
+						if h == nil || h.Pkg == nil || h.Pkg.Pkg.Path() != "strings" {
+							bad = "handed to " + x.Call.Value.String()
+						}
+					}
+				case *ssa.Slice, *ssa.Convert, *ssa.MakeInterface:
+					bad = "converted or sliced for a raw copy"
+				default:
+					bad = fmt.Sprintf("used by %T", r)
+				}
+				c.Check("I15", fmt.Sprintf("string-value-leaves-only-through-quoteString@%s#%d", an.FnName(fn), n), r.Pos(), bad == "",
+					"the text of the string expression is "+bad+" instead of going through quoteString: characters JSON requires to be escaped (control characters when only `\\` and `\"` are looked for) are copied raw, and the invocation data is not valid JSON")
+			}
+		})
+	}
+	if n == 0 {
+		c.Info("I15", "anchor(uses of StringExp.Value in its JSON methods)", 0, "none: not decided")
+	}
+}
+
+// T14 (C07): every call is checked for parameters that nothing binds.  BindStms.compile first
+// compiles the bindings that are there and then scans the callee's parameters for ones without a
+// binding (ArgumentNotSuppliedError).  Counting entries is no substitute for the scan: a wildcard
+// leaves its own `*` entry in the list next to the bindings it expands to, so a call whose wildcard
+// misses exactly one parameter has as many entries as the callee has parameters.
+// Rule: every return of a nil error from BindStms.compile has entered the loop over the parameters
+// that looks each one up in the binding table.
+func ruleT14(c *an.Ctx) {
+	fn := c.P.Func(pkgSyntax, "(*BindStms).compile")
+	tableF := c.P.Field(pkgSyntax, "BindStms", "Table")
+	if fn == nil || tableF == nil {
+		c.Info("T14", "anchor((*BindStms).compile)", 0, "not found: not decided")
+		return
+	}
+	scan := func(in ssa.Instruction) bool {
+		lk, ok := in.(*ssa.Lookup)
+		return ok && lk.CommaOk && an.LoadsField(lk.X, tableF)
+	}
+	entry := loopEntryBarrier(fn, scan)
+	n := 0
+	an.Instrs(fn, func(in ssa.Instruction) {
+		r, ok := in.(*ssa.Return)
+		if !ok || len(r.Results) != 1 {
+			return
+		}
+		v := an.RetVal(r, 0)
+		mayBeNil := an.IsNil(v)
+		if cl, isC := v.(*ssa.Call); isC && cl.Call.StaticCallee() != nil && cl.Call.StaticCallee().Name() == "If" {
+			mayBeNil = true
+		}
+		if !mayBeNil {
+			return
+		}
+		n++
+		w := an.Query{Fn: fn, Target: func(x ssa.Instruction) bool { return x == ssa.Instruction(r) }, Barrier: scan, BarrierEdge: entry}.Find()
+		c.Check("T14", fmt.Sprintf("unbound-parameters-are-looked-for@(*BindStms).compile#%d", n), r.Pos(), w == nil,
+			"the bindings of a call can be accepted without the scan of the callee's parameters for ones that nothing binds: a `* = ...` wildcard that misses exactly one parameter has as many list entries as there are parameters, the call compiles and the stage would run without a value for that parameter; "+c.WitnessString(w))
+	})
+	if n == 0 {
+		c.Info("T14", "anchor(successful returns of BindStms.compile)", 0, "none: not decided")
+	}
+}
+
+// O8 (C02): an element of a split `disabled` collection that is only known at run time keeps the
+// control binding.  resolveDisableArray/Map classify the elements: all literally false - the call is
+// never disabled and the binding is dropped; all literally true - always disabled; otherwise the
+// reference is kept, which makes the producer of the flag a prenode of the call.  If a reference
+// element does not clear the "all false" verdict, `[FLAG.skip, false]` drops the binding: the call
+// no longer waits for FLAG and is never disabled.
+// Rule: in the functions of the syntax package that classify the elements of a disable collection
+// (a type switch with an arm for *RefExp inside a loop, and boolean accumulators carried by the
+// loop), every accumulator is false after an iteration that took the *RefExp arm.
+func ruleO8(c *an.Ctx) {
+	n := 0
+	for _, fn := range c.P.FuncsOf(pkgSyntax) {
+		if !strings.Contains(strings.ToLower(fn.Name()), "disable") {
+			continue
+		}
+		for hd, body := range naturalLoops(fn) {
+			// the boolean accumulators of the loop
+			var accs []*ssa.Phi
+			for _, in := range hd.Instrs {
+				ph, ok := in.(*ssa.Phi)
+				if !ok {
+					break
+				}
+				if b, isB := ph.Type().Underlying().(*types.Basic); isB && b.Kind() == types.Bool {
+					accs = append(accs, ph)
+				}
+			}
+			if len(accs) < 2 {
+				continue
+			}
+			// the block taken when the element is a *RefExp
+			var refArm *ssa.BasicBlock
+			for b := range body {
+				if len(b.Instrs) == 0 {
+					continue
+				}
+				iff, ok := b.Instrs[len(b.Instrs)-1].(*ssa.If)
+				if !ok {
+					continue
+				}
+				ex, ok := iff.Cond.(*ssa.Extract)
+				if !ok || ex.Index != 1 {
+					continue
+				}
+				ta, ok := ex.Tuple.(*ssa.TypeAssert)
+				if !ok {
+					continue
+				}
+				if nm, _ := derefNamed(ta.AssertedType); nm == "RefExp" {
+					refArm = b.Succs[0]
+				}
+			}
+			if refArm == nil {
+				continue
+			}
+			// follow the arm to the header along single successors, resolving phis on the way
+			resolved := map[ssa.Value]ssa.Value{}
+			resolve := func(v ssa.Value) ssa.Value {
+				for i := 0; i < 8; i++ {
+					r, ok := resolved[v]
+					if !ok {
+						return v
+					}
+					v = r
+				}
+				return v
+			}
+			prev, cur := refArm, refArm
+			for steps := 0; steps < 12 && cur != hd; steps++ {
+				if len(cur.Succs) != 1 {
+					break
+				}
+				next := cur.Succs[0]
+				idx := -1
+				for i, p := range next.Preds {
+					if p == cur {
+						idx = i
+					}
+				}
+				for _, in := range next.Instrs {
+					ph, ok := in.(*ssa.Phi)
+					if !ok {
+						break
+					}
+					if idx >= 0 {
+						resolved[ph] = resolve(ph.Edges[idx])
+					}
+				}
+				prev, cur = cur, next
+			}
+			_ = prev
+			if cur != hd {
+				continue
+			}
+			for _, acc := range accs {
+				n++
+				v := resolve(acc)
+				k, isC := v.(*ssa.Const)
+				isFalse := isC && k.Value != nil && k.Value.Kind() == constant.Bool && !constant.BoolVal(k.Value)
+				c.Check("O8", fmt.Sprintf("reference-element-clears-every-verdict@%s#%d", an.FnName(fn), n), acc.Pos(), isFalse,
+					"after an element that is a reference (known only at run time) one of the loop's verdicts can still be true: a collection such as [FLAG.skip, false] is classified `all false`, the control binding is dropped, the producer of the flag is no prenode of the call any more and the call is never disabled")
+			}
+		}
+	}
+	c.Floor("O8", "verdicts of the disable-collection classifiers", n, 2)
+}
+
+// P13 (C08): no call is recorded as depending on itself.  directDepsMap records call -> call
+// dependencies; a reference to the call's own output is an error reported at once.  A self edge in
+// the map hides a cycle through that call from findMissingDeps (it only compares dependencies that
+// are not yet in the set), and topoSort then swaps the two calls for ever: mro check hangs on a
+// 400-byte input.
+// Rule: every insertion into a dependency set (map[*CallStm]struct{}) in directDepsMap and its
+// closures is dominated by a comparison of the dependency with the depending call - in the function,
+// or at every call of the closure that makes the insertion.
+func ruleP13(c *an.Ctx) {
+	fn := c.P.Func(pkgSyntax, "(*Pipeline).directDepsMap")
+	if fn == nil {
+		c.Info("P13", "anchor(directDepsMap)", 0, "not found: not decided")
+		return
+	}
+	isCallStmPtr := func(t types.Type) bool { nm, _ := derefNamed(t); return nm == "CallStm" }
+	neq := func(rel an.Rel) bool {
+		return rel.Op == token.NEQ && rel.X != nil && rel.Y != nil && isCallStmPtr(rel.X.Type()) && isCallStmPtr(rel.Y.Type())
+	}
+	n := 0
+	for _, g := range an.WithAnon(fn) {
+		g := g
+		an.Instrs(g, func(in ssa.Instruction) {
+			mu, ok := in.(*ssa.MapUpdate)
+			if !ok {
+				return
+			}
+			mt, ok := mu.Map.Type().Underlying().(*types.Map)
+			if !ok || !isCallStmPtr(mt.Key()) {
+				return
+			}
+			if _, isStruct := mt.Elem().Underlying().(*types.Struct); !isStruct {
+				return
+			}
+			n++
+			guarded, _ := an.GuardedBy(mu, neq)
+			if !guarded && g != fn {
+				// the closure that inserts: every call of it
+				all, cnt := true, 0
+				for _, host := range an.WithAnon(fn) {
+					an.Instrs(host, func(x ssa.Instruction) {
+						cl, ok := x.(*ssa.Call)
+						if !ok {
+							return
+						}
+						var target *ssa.Function
+						switch v := cl.Call.Value.(type) {
+						case *ssa.MakeClosure:
+							target, _ = v.Fn.(*ssa.Function)
+						case *ssa.Function:
+							target = v
+						default:
+							// a closure kept in a local: resolve through the stored MakeClosure
+							if u, isU := v.(*ssa.UnOp); isU {
+								for _, r := range an.Referrers(u.X) {
+									if st, isSt := r.(*ssa.Store); isSt {
+										if mc, isMC := st.Val.(*ssa.MakeClosure); isMC {
+											target, _ = mc.Fn.(*ssa.Function)
+										}
+									}
+								}
+							}
+						}
+						if target != g {
+							return
+						}
+						cnt++
+						if ok2, _ := an.GuardedBy(cl, neq); !ok2 {
+							all = false
+						}
+					})
+				}
+				guarded = all && cnt > 0
+			}
+			c.Check("P13", fmt.Sprintf("no-self-dependency-recorded@%s#%d", an.FnName(g), n), mu.Pos(), guarded,
+				"a dependency is inserted without having been compared with the depending call: `disabled = SELF.out` records a self edge, which hides a cycle through that call from the missing-dependency search; the in-place topological sort then swaps two calls for ever and mro check / mro format hang")
+		})
+	}
+	if n == 0 {
+		c.Info("P13", "anchor(dependency insertions in directDepsMap)", 0, "none: not decided")
+	}
+}
+
+// N12 (C17): an int is valid only if it decodes as one.  BuiltinType.IsValidJson decides `int` by
+// decoding into an int64.  A digit-counting fast path (\"at most 19 digits\") accepts 19-digit
+// literals beyond the int64 range, which FilterJson then refuses or rewrites: validation and
+// filtering disagree.
+// Rule: in BuiltinType.IsValidJson every return of nil inside the arm for KindInt is the result of
+// the decode helper (no constant nil).
+func ruleN12(c *an.Ctx) {
+	fn := c.P.Func(pkgSyntax, "(*BuiltinType).IsValidJson")
+	kInt := c.P.Const(pkgSyntax, "KindInt")
+	if fn == nil || kInt == nil {
+		c.Info("N12", "anchor(BuiltinType.IsValidJson/KindInt)", 0, "not found: not decided")
+		return
+	}
+	n := 0
+	an.Instrs(fn, func(in ssa.Instruction) {
+		r, ok := in.(*ssa.Return)
+		if !ok || len(r.Results) != 1 {
+			return
+		}
+		isKindInt := func(v ssa.Value) bool {
+			k, ok := an.ConstVal(v)
+			return ok && k.Kind() == constant.String && kInt.Val().Kind() == constant.String && constant.StringVal(k) == constant.StringVal(kInt.Val())
+		}
+		inArm, _ := an.GuardedBy(r, func(rel an.Rel) bool {
+			return rel.Op == token.EQL && (isKindInt(rel.Y) || isKindInt(rel.X))
+		})
+		if !inArm {
+			return
+		}
+		n++
+		c.Check("N12", fmt.Sprintf("int-validated-by-decoding@(*BuiltinType).IsValidJson#%d", n), r.Pos(), !an.IsNil(an.RetVal(r, 0)),
+			"the arm for int accepts a value without decoding it: a shortcut that counts digits accepts 19-digit literals beyond the int64 range (9223372036854775808), which the filter of the same type refuses - validation and filtering disagree and an out-of-range value validates cleanly")
+	})
+	if n == 0 {
+		c.Info("N12", "anchor(returns in the int arm)", 0, "none: not decided")
+	}
+}
+
+// G16 (C19): removing an output removes only what refers to it.  removeRefFromExp rebuilds array and
+// map literals without the elements that refer to the removed output.  Whether an element goes is
+// decided by shouldRemoveExpCallRef; deciding it by "the rewritten element is null" also drops the
+// nulls the user wrote: `[A.x, null, B.y]` loses an element (a fork of a split) when an unrelated
+// output is removed.
+// Rule: in removeRefFromExp an iteration over a literal's elements ends without keeping the element
+// only over an edge on which shouldRemoveExpCallRef holds.
+func ruleG16(c *an.Ctx) {
+	fn := c.P.Func(pkgRefac, "removeRefFromExp")
+	if fn == nil {
+		c.Info("G16", "anchor(removeRefFromExp)", 0, "not found: not decided")
+		return
+	}
+	keep := func(in ssa.Instruction) bool {
+		if _, ok := in.(*ssa.MapUpdate); ok {
+			return true
+		}
+		if v, ok := in.(ssa.Value); ok {
+			if _, isApp := an.IsBuiltinCall(v, "append"); isApp {
+				return true
+			}
+		}
+		return false
+	}
+	shouldRemove := func(from, to *ssa.BasicBlock) bool {
+		return an.EdgeHolds(from, to, func(rel an.Rel) bool {
+			if rel.Op != token.ILLEGAL || !rel.Truth {
+				return false
+			}
+			cl, ok := rel.X.(*ssa.Call)
+			return ok && cl.Call.StaticCallee() != nil && cl.Call.StaticCallee().Name() == "shouldRemoveExpCallRef"
+		})
+	}
+	n := 0
+	for hd, body := range naturalLoops(fn) {
+		hasKeep := false
+		for b := range body {
+			for _, in := range b.Instrs {
+				if keep(in) {
+					hasKeep = true
+				}
+			}
+		}
+		if !hasKeep {
+			continue
+		}
+		for _, sc := range hd.Succs {
+			if !body[sc] {
+				continue
+			}
+			n++
+			first := sc.Instrs[0]
+			var w *an.Witness
+			if !keep(first) {
+				w = an.Query{Fn: fn, After: first, Target: func(x ssa.Instruction) bool { return x == hd.Instrs[0] }, Barrier: keep,
+					BarrierEdge: func(from, to *ssa.BasicBlock) bool { return !body[to] || shouldRemove(from, to) }}.Find()
+			}
+			c.Check("G16", fmt.Sprintf("element-dropped-only-if-it-refers-to-the-output@removeRefFromExp#%d", n), hd.Instrs[0].Pos(), w == nil,
+				"an element of an array or map literal can be left out of the rebuilt literal without shouldRemoveExpCallRef having said that it refers to the removed output: a literal `null` that the user wrote is dropped as well, an array loses an element and a split loses a fork; "+c.WitnessString(w))
+		}
+	}
+	c.Floor("G16", "element loops of removeRefFromExp", n, 2)
+}
+
+// V11 (C04): whether a JSON string names a file is decided on the decoded string.
+// getMaybeFileNames looks at value[0] to tell the kind of JSON value and decodes strings before
+// asking path.IsAbs.  Looking at further raw bytes (\"the second byte must be '/'\") is wrong for
+// every encoder that escapes the slash (`\"\\/a\\/b\"`), so such outs name no files, the keep-alive
+// argument is dropped and strict VDR removes the files while they are needed.
+// Rule: in getMaybeFileNames no byte of the raw message other than the first is compared.
+func ruleV11(c *an.Ctx) {
+	fn := c.P.Func(pkgCore, "getMaybeFileNames")
+	if fn == nil {
+		c.Info("V11", "anchor(getMaybeFileNames)", 0, "not found: not decided")
+		return
+	}
+	n, bad := 0, token.NoPos
+	an.Instrs(fn, func(in ssa.Instruction) {
+		var idx ssa.Value
+		var val ssa.Value
+		switch x := in.(type) {
+		case *ssa.IndexAddr:
+			idx, val = x.Index, x
+		case *ssa.Index:
+			idx, val = x.Index, x
+		default:
+			return
+		}
+		if nm, _ := derefNamed(val.Type()); nm != "" {
+			_ = nm
+		}
+		// only raw messages / byte slices
+		var elemOK bool
+		switch t := in.(type) {
+		case *ssa.IndexAddr:
+			if sl, ok := t.X.Type().Underlying().(*types.Slice); ok {
+				if b, isB := sl.Elem().Underlying().(*types.Basic); isB && b.Kind() == types.Uint8 {
+					elemOK = true
+				}
+			}
+		}
+		if !elemOK {
+			return
+		}
+		n++
+		if !an.IsIntConst(idx, 0) {
+			bad = in.Pos()
+		}
+	})
+	c.Check("V11", "file-names-decided-on-decoded-strings@getMaybeFileNames", bad, bad == token.NoPos,
+		"a byte of the raw JSON other than the first is examined to decide whether the value can name a file: an encoder that escapes the slash (\"\\/a\\/b\") or writes it as \\u002f produces a path whose raw bytes look different, the argument is judged to name no files and strict VDR removes them before their consumer starts")
+	c.Floor("V11", "raw byte inspections in getMaybeFileNames", n, 1)
+}
+
+// Q19 (C09): a multi-byte escape is written as a rune, not as a byte.  In the string decoder only the
+// \\xNN escape denotes a raw byte; \\uXXXX denotes a code point and must be UTF-8 encoded.  A fast
+// path that appends the low byte of \\u00XX directly is right below 0x80 and produces a lone invalid
+// byte for \\u0080..\\u00ff, which the formatter then rewrites as \\ufffd: the literal changes.
+// Rule: in unquoteBytes and its helpers, a hex-decoded byte is appended directly only in the arm for
+// the escape letter 'x'.
+func ruleQ19(c *an.Ctx) {
+	root := c.P.Func(pkgSyntax, "unquoteBytes")
+	if root == nil {
+		c.Info("Q19", "anchor(unquoteBytes)", 0, "not found: not decided")
+		return
+	}
+	hosts := []*ssa.Function{root}
+	for _, g := range familyOf(c.P, root, 2) {
+		if g != root && g.Pkg == root.Pkg {
+			hosts = append(hosts, g)
+		}
+	}
+	n := 0
+	for _, fn := range hosts {
+		an.Instrs(fn, func(in ssa.Instruction) {
+			st, ok := in.(*ssa.Store)
+			if !ok {
+				return
+			}
+			cl, ok := st.Val.(*ssa.Call)
+			if !ok || cl.Call.StaticCallee() == nil || !strings.HasPrefix(cl.Call.StaticCallee().Name(), "parseHexByte") {
+				return
+			}
+			if _, isIA := st.Addr.(*ssa.IndexAddr); !isIA {
+				return
+			}
+			n++
+			g, _ := an.GuardedBy(st, func(rel an.Rel) bool {
+				if rel.Op != token.EQL {
+					return false
+				}
+				return an.IsIntConst(rel.Y, 'x') || an.IsIntConst(rel.X, 'x')
+			})
+			c.Check("Q19", fmt.Sprintf("raw-byte-only-for-the-x-escape@%s#%d", an.FnName(fn), n), st.Pos(), g,
+				"a hex-decoded byte is appended to the decoded string outside the arm for \\x: for \\u0080..\\u00ff this writes a lone byte that is not valid UTF-8 where the code point's two-byte encoding belongs, and the formatter turns it into \\ufffd - \"caf\\u00e9\" does not survive formatting")
+		})
+	}
+	if n == 0 {
+		c.Info("Q19", "anchor(raw hex byte appends in the string decoder)", 0, "none: not decided")
+	}
+}
+
+// M15 (C13): every exit of moveOutFile has written a value, the error exits too.  The callers that
+// rebuild arrays, maps and structs go on after an element's error (they collect the errors) and keep
+// writing separators.  An error exit that wrote nothing leaves `[,]` - not JSON, so the rewritten
+// _outs is rejected as a whole and outputs that were already moved keep their old paths - or drops
+// the only element of an array.
+// Rule: every return of moveOutFile is preceded on every path by a write into its buffer parameter
+// (a Write* call on it, or a call of a function of the family that is handed the buffer).
+func ruleM15(c *an.Ctx) {
+	fn := c.P.Func(pkgCore, "moveOutFile")
+	if fn == nil || len(fn.Params) == 0 {
+		c.Info("M15", "anchor(moveOutFile)", 0, "not found: not decided")
+		return
+	}
+	var w ssa.Value
+	for _, prm := range fn.Params {
+		if strings.Contains(prm.Type().String(), "bytes.Buffer") {
+			w = prm
+		}
+	}
+	if w == nil {
+		c.Info("M15", "anchor(buffer parameter of moveOutFile)", 0, "not found: not decided")
+		return
+	}
+	writes := func(in ssa.Instruction) bool {
+		cl := an.AsCallAny(in)
+		if cl == nil {
+			return false
+		}
+		for _, a := range cl.Common().Args {
+			if an.Strip(a) == w {
+				return true
+			}
+		}
+		return false
+	}
+	n := 0
+	an.Instrs(fn, func(in ssa.Instruction) {
+		r, ok := in.(*ssa.Return)
+		if !ok {
+			return
+		}
+		n++
+		wt := an.Query{Fn: fn, Target: func(x ssa.Instruction) bool { return x == ssa.Instruction(r) }, Barrier: writes}.Find()
+		c.Check("M15", fmt.Sprintf("every-exit-has-written-a-value@moveOutFile#%d", n), r.Pos(), wt == nil,
+			"moveOutFile can return without having written anything into the buffer that becomes the rewritten _outs: the container writers continue after an element's error, so the array comes out as `[,]` (not JSON: _outs is not rewritten at all) or loses its only element; "+c.WitnessString(wt))
+	})
+	c.Floor("M15", "returns of moveOutFile", n, 5)
+}
+
+// N13 (C17): the float fallback of the int filter is for values written as floats.
+// BuiltinType.FilterJson accepts `1.0` for an int by decoding into a float64 when the int64 decode
+// failed.  An integer literal just outside the int64 range also fails the first decode, is rounded
+// by the float parse to exactly -2^63 and handed on changed, although IsValidJson rejects it.
+// Rule: in BuiltinType.FilterJson a decode into *float64 that follows a failed decode into *int64
+// is dominated by a test of the literal's text (bytes.ContainsAny / IndexAny / IndexByte ...).
+func ruleN13(c *an.Ctx) {
+	fn := c.P.Func(pkgSyntax, "(*BuiltinType).FilterJson")
+	if fn == nil {
+		c.Info("N13", "anchor(BuiltinType.FilterJson)", 0, "not found: not decided")
+		return
+	}
+	isDecodeInto := func(in ssa.Instruction, kind types.BasicKind) bool {
+		cl := an.AsCallAny(in)
+		if cl == nil || cl.Common().StaticCallee() == nil || cl.Common().StaticCallee().Name() != "Unmarshal" || len(cl.Common().Args) < 2 {
+			return false
+		}
+		t := an.Strip(cl.Common().Args[1]).Type()
+		p, ok := t.Underlying().(*types.Pointer)
+		if !ok {
+			return false
+		}
+		b, ok := p.Elem().Underlying().(*types.Basic)
+		return ok && b.Kind() == kind
+	}
+	hasInt := false
+	an.Instrs(fn, func(in ssa.Instruction) {
+		if isDecodeInto(in, types.Int64) {
+			hasInt = true
+		}
+	})
+	n := 0
+	an.Instrs(fn, func(in ssa.Instruction) {
+		if !hasInt || !isDecodeInto(in, types.Float64) {
+			return
+		}
+		// only the one in the int arm: reachable after the int64 decode
+		after := false
+		an.Instrs(fn, func(x ssa.Instruction) {
+			if isDecodeInto(x, types.Int64) && an.Reachable(fn, x, func(y ssa.Instruction) bool { return y == in }) {
+				after = true
+			}
+		})
+		if !after {
+			return
+		}
+		n++
+		g, _ := an.GuardedBy(in, func(rel an.Rel) bool {
+			var cl *ssa.Call
+			if rel.Op == token.ILLEGAL {
+				cl, _ = rel.X.(*ssa.Call)
+			} else {
+				cl, _ = rel.X.(*ssa.Call)
+				if cl == nil {
+					cl, _ = rel.Y.(*ssa.Call)
+				}
+			}
+			if cl == nil || cl.Call.StaticCallee() == nil || cl.Call.StaticCallee().Pkg == nil || cl.Call.StaticCallee().Pkg.Pkg.Path() != "bytes" {
+				return false
+			}
+			return strings.HasPrefix(cl.Call.StaticCallee().Name(), "Contains") || strings.HasPrefix(cl.Call.StaticCallee().Name(), "Index")
+		})
+		c.Check("N13", fmt.Sprintf("float-fallback-only-for-literals-written-as-floats@(*BuiltinType).FilterJson#%d", n), in.Pos(), g,
+			"after the int64 decode failed the value is decoded as a float whatever it looks like: -9223372036854775809 is rounded to -2^63 and passed on, changed, with fatal=false - the filter accepts (and alters) a value that IsValidJson rejects")
+	})
+	if n == 0 {
+		c.Info("N13", "anchor(float fallback of the int filter)", 0, "not found: not decided")
+	}
+}
+
+// V12 (C04): the raw-bytes shortcut of getMaybeFileNames allows for \\u escapes.
+// Rule: the return taken because the raw value does not contain the (escaped) path separator is
+// also guarded by the absence of a `\\u` escape in the raw value.
+func ruleV12(c *an.Ctx) {
+	fn := c.P.Func(pkgCore, "getMaybeFileNames")
+	if fn == nil {
+		c.Info("V12", "anchor(getMaybeFileNames)", 0, "not found: not decided")
+		return
+	}
+	containsGlobal := func(rel an.Rel, want func(g *ssa.Global) bool) bool {
+		if rel.Op != token.ILLEGAL || rel.Truth {
+			return false
+		}
+		cl, ok := rel.X.(*ssa.Call)
+		if !ok || cl.Call.StaticCallee() == nil || cl.Call.StaticCallee().Name() != "Contains" || len(cl.Call.Args) != 2 {
+			return false
+		}
+		u, ok := cl.Call.Args[1].(*ssa.UnOp)
+		if !ok {
+			return false
+		}
+		g, ok := u.X.(*ssa.Global)
+		return ok && want(g)
+	}
+	n := 0
+	an.Instrs(fn, func(in ssa.Instruction) {
+		r, ok := in.(*ssa.Return)
+		if !ok {
+			return
+		}
+		sep, _ := an.GuardedBy(r, func(rel an.Rel) bool {
+			return containsGlobal(rel, func(g *ssa.Global) bool { return strings.Contains(strings.ToLower(g.Name()), "sep") })
+		})
+		if !sep {
+			return
+		}
+		n++
+		esc, _ := an.GuardedBy(r, func(rel an.Rel) bool {
+			return containsGlobal(rel, func(g *ssa.Global) bool {
+				nm := strings.ToLower(g.Name())
+				return strings.Contains(nm, "unicode") || (strings.Contains(nm, "escape") && !strings.Contains(nm, "sep"))
+			})
+		})
+		c.Check("V12", fmt.Sprintf("separator-shortcut-allows-for-unicode-escapes@getMaybeFileNames#%d", n), r.Pos(), esc,
+			"the value is judged to name no files because its raw bytes contain no path separator, without excluding \\u escapes: an outs value that spells its slashes as \\u002f names no files, its keep-alive argument is dropped and strict VDR removes the files before their consumer starts")
+	})
+	if n == 0 {
+		c.Info("V12", "anchor(separator shortcut in getMaybeFileNames)", 0, "not found: not decided")
+	}
+}
